@@ -160,7 +160,7 @@ func (b *Bundle) Collision(kind string) {
 		use(b.Def("Acct"+k+"Settings", jx.Obj{"type": "object", "description": b.lbl("px"), "properties": jx.Obj{"theme": jx.Obj{"$ref": "#/definitions/Theme" + k}}}))
 		b.Def("Theme"+k, jx.Obj{"type": "object", "description": b.lbl("px"), "properties": jx.Obj{"color": jx.Obj{"$ref": "#/definitions/Color" + k}}})
 		b.Def("Color"+k, b.Obj())
-		b.Def("Acct"+k, b.Obj()) // unused, and a prefix of the used one
+		b.Def("Acct"+k, b.Obj())                                                                                                                         // unused, and a prefix of the used one
 		b.Def("Acct"+k+"Set", jx.Obj{"type": "object", "description": b.lbl("px"), "properties": jx.Obj{"x": jx.Obj{"$ref": "#/definitions/Acct" + k}}}) // unused too
 		b.Tag("unused")
 	case "anonPointerNameTaken", "anonPointerSymbolsKey":
